@@ -147,6 +147,20 @@ OBLIGATIONS += [
     M("C12", "c12_compact_glue", {"q": "compact", "name": "compact_glue_c12"}, ["Signature::from_compact_impl", "Signature::to_compact_bytes", "RecoveryInfo::from_byte"], "as C06 c06_compact_glue", cost=1),
 ]
 
+# ---------------------------------------------------------------- C19
+EXPLANATION["C19"] = ("E2 executes Script::match_impl on STRUCTURED scripts (lists of ScriptBit values) against templates (lists of MatchToken values): every token kind x every element kind, "
+                      "all five length comparisons with symbolic lengths, extraction order and tags, unequal lengths; and Transaction::match_output(s)/match_input(s) with every "
+                      "present/absent combination of template/exact/min/max on symbolic values (template = uninterpreted predicate). Template TEXT parsing, Signature/PublicKey decoding "
+                      "(summarised as predicates) and self-templates (ASM) are outside.")
+OBLIGATIONS += [
+    M("C19", "c19_template_match", {"q": "template"}, ["Script::match_impl (+closures)", "Script::test_impl", "derived PartialEq on OpCodes / Vec<u8>"],
+      "templates and scripts of 0..2 elements: 12 token kinds x 5 element kinds, opcodes equal/different, push payloads of symbolic length <= 300, symbolic Data(len) bound", cost=1,
+      stubs=("E2: Signature::from_der_impl and PublicKey::from_bytes_impl are uninterpreted acceptance predicates in this query",)),
+    M("C19", "c19_criteria_k2", {"q": "criteria", "k": 2}, ["Transaction::match_output", "Transaction::match_outputs", "Transaction::match_input", "Transaction::match_inputs", "Transaction::is_matching_output", "Transaction::is_matching_input", "TxIn::get_finalised_script_impl"],
+      "2 outputs / 2 inputs (inputs carry satoshis and locking script), all 16 present/absent combinations of (template, exact, min, max), all 64-bit values and bounds", cost=2),
+    M("C19", "c19_criteria_k3", {"q": "criteria", "k": 3}, ["same"], "3 outputs / 3 inputs", cost=6, tiers=("thorough",)),
+]
+
 
 def for_property(pid):
     return [dict(o) for o in OBLIGATIONS if o["property"] == pid]
